@@ -601,77 +601,55 @@ Proof.
   subst. auto.
 Qed.
 
+Lemma ninv_nlog : forall m s e, NInv m s -> NInv (nlog m e) s.
+Proof. intros m s e (L&T&F). split; [eapply nled_same_ptrs; eauto | split; [exact T | exact F]]. Qed.
+Lemma scanned_nlog : forall m line e, Scanned m line -> Scanned (nlog m e) line.
+Proof. intros m line e H. exact H. Qed.
+
 Lemma safe_nmstep : forall st line s, NSInv st s -> line <> [] ->
   safe (nmstep NFixed st line) s (fun st' s' => NSInv st' s').
 Proof.
   intros [ms m] line s (HI&HL) Hne. simpl in HI, HL. unfold nmstep; cbn [fst snd].
   destruct ms as [p|]; [|apply safe_ret; split; auto].
-  assert (Hgo : forall (Hp : match p with NErr _ => False | _ => True end),
-     safe (o <- scan_line_n NFixed m line;;
-           (if negb (fst o)
-            then ret (NNoMem, snd o)
-            else
-             m2 <- classify_n (snd o) line;;
-             match p with
-             | NHeader h =>
-                 match record_of line with
-                 | RecKey k _ =>
-                     o2 <- header_mem h k line m2;;
-                     match o2 with
-                     | Some m3 => ret (NRun (nstep p line), m3)
-                     | None => ret (NNoMem, m2)
-                     end
-                 | RecData _ =>
-                     match post_header h with
-                     | inl _ => ret (NRun (nstep p line), m2)
-                     | inr x =>
-                         o2 <- post_header_mem x m2;;
-                         match o2 with
-                         | Some m3 => data_mem x (mknd (x_nfreq x) [] [] []) line m3;;; ret (NRun (nstep p line), m3)
-                         | None => ret (NNoMem, m2)
-                         end
-                     end
-                 | RecBad => ret (NRun (nstep p line), m2)
-                 end
-             | NData x d =>
-                 match record_of line with
-                 | RecData _ => data_mem x d line m2
-                 | _ => ret tt
-                 end;;; ret (NRun (nstep p line), m2)
-             | NErr _ => ret (NRun p, m2)
-             end)) s (fun st' s' => NSInv st' s')).
-  { intro Hp. apply safe_bind. eapply safe_weaken; [apply safe_scan_line_fixed; exact HI|].
-    intros [ok m1] s1 (HI1&(Z1&Z2)&HS1). simpl in *. destruct ok; simpl.
+  destruct p as [h|x d|c]; [| |apply safe_ret; split; auto].
+  - (* header *)
+    apply safe_bind. eapply safe_weaken; [apply safe_scan_line_fixed; exact HI|].
+    intros [ok m1] s1 (HI1&(Z1&Z2)&HS1). cbn [fst snd] in *. destruct ok; cbn [negb fst snd].
     2:{ apply safe_ret. split; simpl; auto. }
     specialize (HS1 eq_refl). apply safe_bind.
     eapply safe_weaken; [apply safe_classify; eauto|].
     intros m2 s2 (He&HI2&HS2&(Y1&Y2)). subst s2.
-    destruct p as [h|x d|c]; [| |contradiction].
-    - (* header *)
-      destruct (record_of line) as [k flds|flds|] eqn:Er.
-      + apply safe_bind. eapply safe_weaken; [apply safe_header_mem; eauto|].
-        intros [m3|] s3 H; apply safe_ret.
-        * destruct H as (A&B&C). split; cbn [fst snd]; [exact A|]. unfold nstep. rewrite Er.
-          destruct (hline_step h k flds); exact I.
-        * split; simpl; auto.
-      + destruct (post_header h) as [c|x] eqn:Ep.
-        * apply safe_ret. split; cbn [fst snd]; [exact HI2|]. unfold nstep. rewrite Er, Ep. exact I.
-        * apply safe_bind. eapply safe_weaken; [apply (safe_post_header_mem x m2 s1 line); eauto|].
-          intros [m3|] s3 H; [|apply safe_ret; split; simpl; auto].
-          destruct H as (A&B&C). pose proof (post_header_bounds h x Ep) as Hb.
-          apply safe_bind. eapply safe_weaken; [apply safe_data_mem; eauto|].
-          intros u s4 He4. rewrite He4. apply safe_ret. split; cbn [fst snd]; [exact A|].
-          unfold nstep. rewrite Er, Ep. apply nlink_data_step; auto.
-      + apply safe_ret. split; cbn [fst snd]; [exact HI2|]. unfold nstep. rewrite Er. exact I.
-    - (* data *)
-      destruct HL as (Hb&Hz).
-      assert (Hz2 : x_fz0 x = true -> n_z0 m2 <> None) by (intro Hf; rewrite Y1, Z1; auto).
-      apply safe_bind.
-      assert (Hd : safe (match record_of line with RecData _ => data_mem x d line m2 | _ => ret tt end) s1 (fun _ s' => s' = s1)).
-      { destruct (record_of line); try (apply safe_ret; reflexivity). apply safe_data_mem; auto. }
-      eapply safe_weaken; [exact Hd|]. intros u s3 He3. rewrite He3. apply safe_ret.
-      split; cbn [fst snd]; [exact HI2|]. apply nlink_data_step; auto. }
-  destruct p as [h|x d|c]; [apply Hgo; exact I | apply Hgo; exact I | apply safe_ret; split; auto].
+    destruct (record_of line) as [k flds|flds|] eqn:Er.
+    + apply safe_bind. eapply safe_weaken; [apply safe_header_mem; eauto|].
+      intros [m3|] s3 H; apply safe_ret.
+      * destruct H as (A&B&C). unfold nstep; rewrite ?Er.
+        destruct (hline_step h k flds); (split; cbn [fst snd]; [try apply ninv_nlog; exact A | exact I]).
+      * split; simpl; auto.
+    + destruct (post_header h) as [c|x] eqn:Ep.
+      * apply safe_ret. split; cbn [fst snd]; [exact HI2|]. unfold nstep; rewrite ?Er, ?Ep. exact I.
+      * apply safe_bind. eapply safe_weaken; [apply (safe_post_header_mem x _ s1 line); [apply ninv_nlog; exact HI2 | apply scanned_nlog; exact HS2]|].
+        intros [m3|] s3 H; [|apply safe_ret; split; simpl; auto].
+        destruct H as (A&B&C). pose proof (post_header_bounds h x Ep) as Hb.
+        apply safe_bind. eapply safe_weaken; [apply safe_data_mem; eauto|].
+        intros u s4 He4. rewrite He4. apply safe_ret. split; cbn [fst snd]; [apply ninv_nlog; exact A|].
+        unfold nstep; rewrite ?Er, ?Ep. apply nlink_data_step; auto.
+    + apply safe_ret. split; cbn [fst snd]; [exact HI2|]. unfold nstep; rewrite ?Er. exact I.
+  - (* data *)
+    apply safe_bind. eapply safe_weaken; [apply safe_scan_line_fixed; exact HI|].
+    intros [ok m1] s1 (HI1&(Z1&Z2)&HS1). cbn [fst snd] in *. destruct ok; cbn [negb fst snd].
+    2:{ apply safe_ret. split; simpl; auto. }
+    specialize (HS1 eq_refl). apply safe_bind.
+    eapply safe_weaken; [apply safe_classify; eauto|].
+    intros m2 s2 (He&HI2&HS2&(Y1&Y2)). subst s2.
+    destruct HL as (Hb&Hz).
+    assert (Hz2 : x_fz0 x = true -> n_z0 m2 <> None) by (intro Hf; rewrite Y1, Z1; auto).
+    apply safe_bind.
+    assert (Hd : safe (match record_of line with RecData _ => data_mem x d line m2 | _ => ret tt end) s1 (fun _ s' => s' = s1)).
+    { destruct (record_of line); try (apply safe_ret; reflexivity). apply safe_data_mem; auto. }
+    eapply safe_weaken; [exact Hd|]. intros u s3 He3. rewrite He3. apply safe_ret.
+    split; cbn [fst snd].
+    + destruct (record_of line); try apply ninv_nlog; exact HI2.
+    + apply nlink_data_step; auto. destruct (record_of line); exact Hz2.
 Qed.
 
 Lemma safe_nmrun : forall lines st s, NSInv st s -> Forall (fun l => l <> []) lines ->
@@ -687,14 +665,14 @@ Proof.
   intros [ms m] s (HI&HL). unfold nfinish_mem; cbn [fst snd] in *.
   destruct ms as [[h|x d|c]|]; try (apply safe_ret; exact HI).
   destruct (post_header h) as [c|x]; [apply safe_ret; exact HI|].
+  pose proof (ninv_nlog m s (init_events x) HI) as HI0.
+  set (m0 := nlog m (init_events x)) in *.
   apply safe_bind.
-  assert (HS : Scanned (nset_fld (nset_text m (n_text m) (n_tarr m) 0) (n_fld m) (n_farr m) 0) []).
-  { unfold Scanned; simpl. split; [reflexivity|]. split; [reflexivity | intros i Hi; lia]. }
-  unfold post_header_mem. destruct (n_z0 m) as [b|] eqn:Ez.
-  - apply safe_bind. apply safe_touch; [destruct HI as (L&_); eapply nled_z0_live; eauto|]. apply safe_ret. apply safe_ret. exact HI.
+  unfold post_header_mem. destruct (n_z0 m0) as [b|] eqn:Ez.
+  - apply safe_bind. apply safe_touch; [destruct HI0 as (L&_); eapply nled_z0_live; eauto|]. apply safe_ret. apply safe_ret. exact HI0.
   - destruct (x_fz0 x).
-    + eapply safe_weaken; [apply safe_z0_alloc; auto|]. intros [m'|] s1 H; apply safe_ret; simpl; [apply H | exact H].
-    + apply safe_ret. apply safe_ret. exact HI.
+    + eapply safe_weaken; [apply safe_z0_alloc; auto|]. intros [m'|] s1 H; apply safe_ret; cbn [snd]; [apply H | exact H].
+    + apply safe_ret. apply safe_ret. exact HI0.
 Qed.
 
 Lemma safe_ncleanup : forall m s, NInv m s -> safe (ncleanup m) s (fun _ s' => live s' = []).
